@@ -17,7 +17,9 @@ TIERS = {
     "thorough": {"runs": 4000, "budget_s": 1500, "chunk": 1, "positions": "all"},
 }
 RULE = ("one evaluation = one workload (object-graph versions x target precondition x store/mode/"
-        "level/path kind x zarr knobs x I/O schedule seed x history of 1-3 saves); a fault-free "
+        "level/path kind x zarr knobs x I/O schedule seed x history of 1-3 saves; targets also alone "
+        "in pre-existing empty parents, decoy siblings with staging-like names, hard-linked "
+        "snapshots of a foreign pre-existing file and of every saved object); a fault-free "
         "recording pass counts the store operations K, zip members M and torch/dill calls J of the "
         "focus save, then the history is re-executed once per fault position (quick: <=14 sampled "
         "positions incl. all zip-assembly and fs positions; thorough: EVERY position k in "
